@@ -105,6 +105,11 @@ def staircases():
         for step in (2, 3, 4):
             for head in ("", "t0\n"):
                 out.append(head + "".join(" " * (step * i) + marks[i % len(marks)].replace("n", str(i)) + "t%d\n" % (i + 1) for i in range(400)))
+    # lone markers (no text after them): '-' and '=' lines are also setext underlines, which have their own path to the list rule
+    for mark in ("-", "+", "*", "1.", ">", "="):
+        for step in (2, 3):
+            for pre in ("", "> > > > > "):
+                out.append("".join(pre + " " * (step * i) + mark + "\n" for i in range(400)))
     return out
 
 
@@ -211,7 +216,7 @@ def oracle(ctx, extra):
     fails = [f for f in fails if not f.get("class")] + known[:3]
     return {"evaluations": n, "distinct_nontrivial": n // 2, "failures": fails, "known_finding_instances": len(known),
             "input_distribution": dist,
-            "rule": "first 60 systematic indentation staircases (10 marker sets of core and plugin containers x step 2/3/4 x with/without a head line, 400 levels) under all plugins, html and ast; then documents: 45% generated (all plugins, directives), 15% nesting pumps (quotes, lists, mixed containers, "
+            "rule": "first 84 systematic indentation staircases (10 marker sets of core and plugin containers x step 2/3/4 x with/without a head line, and 6 lone markers x step 2/3 x at top level/inside 5 quotes; 400 levels) under all plugins, html and ast; then documents: 45% generated (all plugins, directives), 15% nesting pumps (quotes, lists, mixed containers, "
                     "emphasis, brackets, alternating link/image, code ticks, angle brackets, indentation staircases of block markers, RST/colon/backtick directives, "
                     "formatting plugins, def lists and tables; depth/length 8-400), 12% generated documents with hostile code "
                     "points inserted (controls, line/paragraph separators, BOM, non-characters, combining, bidi, astral), 3% lone "
